@@ -51,6 +51,31 @@ func newCtx(p *Program, prop, tier string) *Ctx {
 
 func (c *Ctx) Thorough() bool { return c.Tier == "thorough" }
 
+// thoroughExtra: the packages the thorough tier adds to the evaluation-side scope of the
+// scope-based rules (flow, unmarked, taint, effects): the extensions and the reflection layer.
+var thoroughExtra = []string{"ext/typeexpr", "ext/tryfunc", "ext/userfunc", "ext/customdecode", "ext/transform", "gohcl", "hclparse", "hclsimple", "hcled"}
+
+// Scope returns base, plus thoroughExtra in the thorough tier.
+func (c *Ctx) Scope(base ...string) []string { return c.ScopeWith(thoroughExtra, base...) }
+
+// ScopeWith returns base, plus extra in the thorough tier.
+func (c *Ctx) ScopeWith(extra []string, base ...string) []string {
+	if !c.Thorough() {
+		return base
+	}
+	out := append([]string{}, base...)
+	seen := map[string]bool{}
+	for _, b := range base {
+		seen[b] = true
+	}
+	for _, x := range extra {
+		if !seen[x] {
+			out = append(out, x)
+		}
+	}
+	return out
+}
+
 // uniq makes a key unique within a run by appending #n for repeats (ordered by
 // occurrence within the function, which follows source order).
 func (c *Ctx) uniq(key string) string {
